@@ -355,6 +355,9 @@ class Check:
         # direct monitors on the implementation
         for mv in (stats.get("monitor_violations") or []):
             if mv["property"] != self.pid:
+                # a monitor of another property fired in this run: decided by that property's check, noted here
+                self.cov.setdefault("extra", {}).setdefault("other_property_monitors", []).append(f"{component}: {mv['property']}: {mv['what'][:160]}")
+                self.log(f"note: component {component} also reported for {mv['property']}: {mv['what'][:160]}")
                 continue
             self.monitor_violation(mv["what"], mv["replay"], component, seed)
         # model vs implementation
